@@ -86,18 +86,33 @@ def same_outcome(o, ref):
     return not o[1].startswith("other:") and ref[1] != "OutOfFuel"
 
 
+_hangs = [0]
+
+
 def evaluate(chk, cases, tag):
     """run implementation + reference (Coq) for every case; rows = [kind, idx, prog, impl_outcome, agrees]"""
     rows, terms = [], []
     for kind, idx, prog in cases:
+        if _hangs[0] >= 12:
+            break       # the tree under test hangs on many programs: reported once (below), do not spend the budget on it
         rep = []
         o = R.render_page(prog, ctx_report=rep)
+        if o == ("err", "other:Timeout"):
+            _hangs[0] += 1
+            if _hangs[0] == 12:
+                chk.fail("c03-render-hangs", "12 renders exceeded the 4 s watchdog; remaining programs skipped",
+                         {"program": prog, "implementation": o, **describe(prog)})
         rows.append([kind, idx, prog, o, None])
         # direct oracle: the caller's Context is left as found (dicts, flatten, render_context depth, keys per layer)
         if rep and rep[0][0] != rep[0][1] and o[0] == "ok":
             chk.fail("c03-caller-context-changed", "Template.render left the caller's Context changed",
                      {"program": prog, "before": rep[0][0], "after": rep[0][1]})
-        if o[0] == "err" and o[1].startswith("other:"):
+        if o[0] == "ok" and len(o[1]) > 60000:
+            # absurdly long output (never what the reference says for these small programs): no Coq literal for it
+            terms.append(None)
+            rows[-1][3] = ("err", "other:Output of %d characters" % len(o[1]))
+            rows[-1][4] = False
+        elif o[0] == "err" and o[1].startswith("other:"):
             # hang / RecursionError / foreign exception: never what the reference says
             terms.append(None)
             rows[-1][4] = False
@@ -165,6 +180,8 @@ def noninterference(chk, mode, bases, reported):
     """two-run oracle on the implementation: same program, unpassed values differ => identical output"""
     n = 0
     for idx, p in bases:
+        if _hangs[0] >= 12:
+            break
         q = p if mode == "isolated" else set_only(p)
         a, b = U.ni_variant(q, "A"), U.ni_variant(q, "B")
         oa, ob = R.render_page(a), R.render_page(b)
@@ -217,6 +234,7 @@ def run(tier, seed):
     djsetup.patch_ids()
     chk = C.Check("C03", tier, seed)
     chk.prove()
+    _hangs[0] = 0
     n = 1500 if tier == "thorough" else 200
     cc = corpus_cases()
     reported = {}
